@@ -218,7 +218,7 @@ def main():
                                     'CachedBlock::{new_cached,block,set_metrics}', 'state::ingest_stable_blocks_into_utxoset', 'UtxoSet::{ingest_block,ingest_block_continue,...}']
     rep.cov['stubs'] = btc.stub_docs(HL.STUBS) + ['ledger model (mirsym/ledger.py)', 'dyn BlocksCache -> map id -> block', 'BlockHeaderStore::insert_block, NextBlockHeaders::{remove,remove_until_height} -> recorders / no-ops',
                                                  'testnet depth bound: real function not reached (threshold rule decides at these sizes)']
-    rep.assumptions = ['blocks are transaction-valid on their own chain (domain of the statement)', 'amounts symbolic >= 1']
+    rep.assumptions = ['blocks are transaction-valid on their own chain (domain of the statement)', 'amounts symbolic (zero-valued outputs included)']
     cands = Cands()
     for part in parallel(jobs, worker):
         merge_partial(rep, cands, part)
